@@ -14,11 +14,11 @@ from .c16_uf import r4_cache_purity, r5_documented_factors, r6_exits_and_typing
 
 RULES = [
     ("C16-R1", r1_roles, 60),
-    ("C16-R2", r2_mirror, 9),
-    ("C16-R3", r3_envelope, 8),
-    ("C16-R4", r4_cache_purity, 28),
-    ("C16-R5", r5_documented_factors, 50),
-    ("C16-R6", r6_exits_and_typing, 100),
+    ("C16-R2", r2_mirror, 12),
+    ("C16-R3", r3_envelope, 10),
+    ("C16-R4", r4_cache_purity, 30),
+    ("C16-R5", r5_documented_factors, 55),
+    ("C16-R6", r6_exits_and_typing, 90),
 ]
 LEVEL = "other"
 EXPLANATION = ("Static, on values: every path of cla.extrema (both arms, first and later cases, with and without abscissae and case numbers) keeps "
